@@ -591,6 +591,18 @@ _jpeg_skip_scanlines(j_decompress_ptr cinfo, JDIMENSION num_lines)
       increment_simple_rowgroup_ctr(cinfo, num_lines);
       return num_lines;
     } else {
+      if (!main_ptr->buffer_full && lines_left_in_iMCU_row > 0) {
+        /* A previous call skipped into this iMCU row without decoding it
+         * (increment_simple_rowgroup_ctr() only advanced rowgroup_ctr.)  The
+         * row is still pending in the coefficient controller, so skip it as a
+         * whole iMCU row, starting again from its first line.
+         */
+        cinfo->output_scanline -=
+          lines_per_iMCU_row - lines_left_in_iMCU_row;
+        lines_after_iMCU_row = num_lines +
+          (lines_per_iMCU_row - lines_left_in_iMCU_row);
+        lines_left_in_iMCU_row = 0;
+      }
       cinfo->output_scanline += lines_left_in_iMCU_row;
       main_ptr->buffer_full = FALSE;
       main_ptr->rowgroup_ctr = 0;
